@@ -71,9 +71,11 @@ Inductive case :=
        (dump : list cdump + nat)        (* the real cache at the end, or only its size *)
   (* one phase of a real transaction: per rule, the values its transformations were applied to
      (recorded in the identity-prefixed run), the values the operator saw, the logged error lists *)
-  | CW (rules : list (list ctf * bool)) (per_rule : list (list bytes * list bytes * list (list nat)))
-  (* dump of a real transaction's cache after a phase: chain of each prefix id; entries *)
-  | CI (entries : list (list ctf * bytes * bytes * list nat))
+  | CW (rules : list (list ctf * bool * nat))      (* transformations, multiMatch, phase *)
+       (per_rule : list (list bytes * list bytes * list (list nat)))
+  (* dump of a real transaction's cache after a phase: the values the rules of that phase started
+     from; entries (chain of the prefix id, input, output, errs) *)
+  | CI (started_from : list bytes) (entries : list (list ctf * bytes * bytes * list nat))
   (* interning: t: argument lists of a rule set in compilation order; the real prefix ids *)
   | CN (names : list (list bytes)) (pids : list (list nat)).
 
@@ -95,6 +97,37 @@ Fixpoint first_index (x : nat) (l : list nat) (i : nat) : nat :=
   match l with [] => i | y :: r => if Nat.eqb x y then i else first_index x r (S i) end.
 Definition canon (l : list nat) : list nat := map (fun x => first_index x l 0) l.
 
+(* ---- the whole transaction through the model: the rules' lists are interned by it_compile
+   (a transformation is named by its code), the phases are evaluated by tc_eval_tx on ONE
+   variable and ONE key pointer (every value collides with every other in (variable, key),
+   positions as doEvaluate numbers them) ---- *)
+Definition pseudo_name (c : ctf) : bytes := [N.of_nat (ctf_code c)].
+
+Definition cw_rules (rules : list (list ctf * bool * nat)) : list (tc_rule ctf) :=
+  let '(_, rs) := it_compile it_init (map (fun r => (map pseudo_name (fst (fst r)), snd (fst r))) rules) in
+  map (fun p => mk_rule (fst (fst (fst p))) (ir_pids (fst (snd p))) (snd (fst (fst p)))) (combine rules rs).
+
+Definition cw_content (origs : list bytes) : tc_content := fun _ => map (fun v => (0, v)) origs.
+
+(* rules of one phase, in order, with what they started from and what was observed *)
+Definition cw_item := (tc_rule ctf * (list bytes * list bytes * list (list nat)))%type.
+Definition cw_phase_items (ph : nat) (items : list (nat * cw_item)) : list cw_item :=
+  map snd (filter (fun x => Nat.eqb (fst x) ph) items).
+
+Fixpoint cw_check (items : list cw_item) (outs : list (list bytes * list ctf)) : bool :=
+  match items with
+  | [] => match outs with [] => true | _ => false end
+  | (_, (origs, seen, errs)) :: rest =>
+    let n := length origs in
+    let mine := firstn n outs in
+    Nat.eqb (length mine) n &&
+    ms_eqb bytes_eqb (concat (map fst mine)) seen &&
+    ms_eqb nats_eqb (filter (fun l => negb (Nat.eqb (length l) 0)) (map (fun o => codes (snd o)) mine)) errs &&
+    cw_check rest (skipn n outs)
+  end.
+
+Definition cw_phases : list nat := [1; 2; 3; 4; 5].
+
 Definition ok (c : case) : bool :=
   match c with
   | CD rules vals calls obs dump =>
@@ -106,19 +139,19 @@ Definition ok (c : case) : bool :=
     | inr n => Nat.eqb (length (st_cache st)) n
     end
   | CW rules per_rule =>
+    let items := combine (map snd rules) (combine (cw_rules rules) per_rule) in
+    let phases := map (fun ph => cw_phase_items ph items) cw_phases in
+    let tx := map (map (fun it : cw_item => (mk_txrule (fst it) [0], cw_content (fst (fst (snd it)))))) phases in
+    let outs := fst (tc_eval_tx ctf ctf_apply tx tc_empty) in
     Nat.eqb (length rules) (length per_rule) &&
-    forallb (fun rp =>
-      let '((ts, multi), (origs, seen, errs)) := rp in
-      let r := mk_rule ts [] multi in
-      let outs := map (fun v => tc_uncached ctf ctf_apply r (mk_arg 0 0 v)) origs in
-      ms_eqb bytes_eqb (concat (map fst outs)) seen &&
-      ms_eqb nats_eqb (filter (fun l => negb (Nat.eqb (length l) 0)) (map (fun o => codes (snd o)) outs)) errs)
-      (combine rules per_rule)
-  | CI entries =>
+    forallb (fun r => existsb (Nat.eqb (snd r)) cw_phases) rules &&
+    forallb (fun po => cw_check (fst po) (snd po)) (combine phases outs)
+  | CI started_from entries =>
     forallb (fun en =>
       let '(chain, i, o, es) := en in
       let x := tc_exec ctf ctf_apply chain i in
-      bytes_eqb (fst x) o && nats_eqb (codes (snd x)) es) entries
+      bytes_eqb (fst x) o && nats_eqb (codes (snd x)) es &&
+      existsb (bytes_eqb i) started_from) entries
   | CN names pids =>
     let '(_, rs) := it_compile it_init (map (fun n => (n, false)) names) in
     list_eqb Nat.eqb (map (fun r => length (ir_pids (fst r))) rs) (map (@length nat) pids) &&
